@@ -23,6 +23,22 @@ CHECKS = {
         "/ 20 s time budgets as a stand-in for termination, nesting <= 40.",
         "DESIGN.md section 5 C01",
     ),
+    "C06": (
+        "property-based testing (Hypothesis): equivalence laws, hash "
+        "consistency and agreement with a model equality on the ckl.values "
+        "API and through interpreted programs; container scenarios over all "
+        "insertion orders",
+        "Generated pairs/triples with deliberately frequent equal-but-"
+        "differently-represented partners and near misses are checked for "
+        "the laws of ==, for a==b => equal hash, for agreement with a model "
+        "equality (exact numeric via Fractions, structural, order-free), and "
+        "for interchangeability in sets/maps/lists (membership, lookup, "
+        "removal, difference, count) under sampled and, for <= 4 (5) "
+        "elements, all insertion orders. Sampling, not proof.",
+        "Trusted: the model equality key; NaN/inf and identity-compared "
+        "kinds (functions, streams, nodes) are outside the domain.",
+        "DESIGN.md section 5 C06",
+    ),
     "C07": (
         "property-based testing (Hypothesis) of order laws and agreement "
         "with a model order on the ckl.values API and through interpreted "
@@ -37,6 +53,23 @@ CHECKS = {
         "FALSE<TRUE, datetime, element-wise lists); cross-kind order is out "
         "of scope.",
         "DESIGN.md section 5 C07",
+    ),
+    "C08": (
+        "property-based testing (Hypothesis): render -> parse -> render round "
+        "trip, permutation-invariance of rendering, scalar format oracles",
+        "Generated data values with adversarial strings and decimals across "
+        "all magnitudes (incl. every double by bit pattern) are rendered, "
+        "the text is interpreted again and compared for model equality, deep "
+        "type and identical second rendering; every set/map is rebuilt in "
+        "permuted orders (all orders for <= 4/5 elements) and must render "
+        "identically; ints/decimals/strings are checked against independent "
+        "format oracles; a table of numeric-producing expressions must render "
+        "according to its type(). Two open findings (NULL map key, pattern "
+        "delimiter) are excluded by construction and reported as "
+        "KNOWN-FINDING.",
+        "Trusted: the independent string renderer and numeral regexes; the "
+        "model equality / deep type.",
+        "DESIGN.md section 5 C08",
     ),
     "C15": (
         "exhaustive enumeration of small sequences x index arguments against "
